@@ -2,6 +2,7 @@
 //! C15 low level) over a fault-injecting simulated disk.
 pub mod disk;
 pub mod exec;
+pub mod golden;
 pub mod model;
 pub mod plan;
 
@@ -97,6 +98,17 @@ pub fn run_trie_batches(ctx: &mut Ctx, prop: &str) -> EngineInfo {
     ctx.run_batch(&clean, n);
     let n = ctx.count(nq, nt);
     ctx.run_batch(&faulty, n);
+    if focus == Focus::Persist {
+        // restart on data written by the pinned version
+        let path = ctx.root.join("golden").join("trie_v1.json");
+        match std::fs::read_to_string(&path).ok().and_then(|t| serde_json::from_str::<Vec<golden::GoldenCase>>(&t).ok()) {
+            Some(cases) if !cases.is_empty() => {
+                let n = ctx.count(400, 4000);
+                ctx.run_batch(&golden::GoldenScenario { cases }, n);
+            }
+            _ => ctx.harness_error(format!("cannot read {}", path.display())),
+        }
+    }
     EngineInfo {
         rule: rule.to_string(),
         explanation: expl.to_string(),
